@@ -170,11 +170,29 @@ func (sa *Safe) loadM(fr *frame, st *State, o *AObj, path string, t types.Type, 
 	}
 	// reading an unknown element of a small pointer array all of whose elements are tracked:
 	// non-nil if every one of them is
-	if _, isPtr := t.Underlying().(*types.Pointer); isPtr && strings.HasSuffix(path, "[*]") && !o.Summary && sa.fullyInit[o] {
-		pre := strings.TrimSuffix(path, "[*]")
+	if _, isPtr := t.Underlying().(*types.Pointer); isPtr && strings.Count(path, "[*]") == 1 && !o.Summary && sa.fullyInit[o] {
+		// also a pointer FIELD of the elements of a fully initialised array of structs ("[*].octet")
+		k := strings.Index(path, "[*]")
+		pre, suf := path[:k], path[k+3:]
+		matches := func(p string) bool {
+			if !strings.HasPrefix(p, pre+"[") {
+				return false
+			}
+			rest := p[len(pre)+1:]
+			j := strings.IndexByte(rest, ']')
+			if j <= 0 || rest[j+1:] != suf {
+				return false
+			}
+			for _, c := range rest[:j] {
+				if c < '0' || c > '9' {
+					return false
+				}
+			}
+			return true
+		}
 		n, allNonNil := 0, true
 		for p, v := range st.mem[o] {
-			if strings.HasPrefix(p, pre+"[") && !strings.Contains(p[len(pre):], "].") && !strings.Contains(p[len(pre)+1:], "[") {
+			if matches(p) {
 				n++
 				if sa.nilOfVal(st, v) != nilNo {
 					allNonNil = false
@@ -185,7 +203,7 @@ func (sa *Safe) loadM(fr *frame, st *State, o *AObj, path string, t types.Type, 
 			// the element read may be any of them, and may be stored through: forget what is known
 			// about every possible target (a weak update in advance)
 			for p, ev := range st.mem[o] {
-				if strings.HasPrefix(p, pre+"[") && ev.Obj != nil {
+				if matches(p) && ev.Obj != nil {
 					sa.havoc(st, ev.Obj, ev.Path)
 				}
 			}
